@@ -396,6 +396,31 @@ def _guard(fn, task):
         return {"error": "%s\n%s" % (exc, traceback.format_exc())}
 
 
+def concrete_replay_result(run, model, q, what):
+    """Replay helper for handler-level harnesses: re-executes ``run`` at the model's values (exact rationals, real
+    code, no solver) and reports the obligation of the query as reproduced when it fails concretely."""
+    from vlib import symx
+    rep = symx.ConcreteReplay(model, q.info.get("choices", []))
+    res = rep.replay(run)
+    name = q.info.get("obligation")
+    if res["exception"] is not None and q.info.get("exception"):
+        return {"reproduced": True, "what": "%s: concrete re-execution at the model's values raises %r"
+                                            % (what, res["exception"]),
+                "data": {"model": {k: str(v) for k, v in model.items()}, "info": _jsonable(q.info)}}
+    if res["broken_axioms"]:
+        return {"reproduced": False, "what": "%s: the model violates an assumption of the harness when re-executed (%s)"
+                                             % (what, res["broken_axioms"][:2])}
+    if name in res["failed"] or (name is None and res["failed"]):
+        return {"reproduced": True,
+                "what": "%s: obligation '%s' fails in the concrete re-execution of the real code at the model's values "
+                        "(exact rational arithmetic, stub answers from the model): %s"
+                        % (what, name, {k: str(v) for k, v in sorted(model.items())[:12]}),
+                "data": {"model": {k: str(v) for k, v in model.items()}, "info": _jsonable(q.info)}}
+    return {"reproduced": False, "what": "%s: obligation '%s' holds in the concrete re-execution (failed: %s, "
+                                         "undecided: %s, exception: %r)" % (what, name, res["failed"][:3],
+                                                                           res["undecided"][:3], res["exception"])}
+
+
 def path_queries(path, solver="z3", timeout_s=60, prefix="", group_prefix="", twin=True, extra_info=None,
                  twin_group=None):
     """Queries for one explored path: one per obligation, plus the reachability twin of the path."""
@@ -403,6 +428,8 @@ def path_queries(path, solver="z3", timeout_s=60, prefix="", group_prefix="", tw
     for (name, cond, info, axioms, pc) in path.obligations:
         inf = dict(extra_info or {})
         inf.update(info)
+        inf.setdefault("obligation", name)
+        inf.setdefault("choices", list(getattr(path, "choices", [])))
         out.append(solve.obligation_query(prefix + name, axioms + pc, cond, solver=inf.pop("solver", solver),
                                           timeout_s=inf.pop("timeout_s", timeout_s), info=inf,
                                           group=group_prefix + name))
